@@ -1,7 +1,7 @@
 """C20 — alternative access paths to the same data agree."""
 import re
 from gen import *
-import vlib, elfgen, filegen, fileq
+import vlib, elfgen, filegen, fileq, streamgen
 import props.C02 as C02
 
 LEVEL = "proof"
@@ -12,9 +12,12 @@ RULE = ("generated objects with/without each section kind, the section header ta
         "segment. Oracles (on the implementation's own outputs): common data == targeted accessors when each kind occurs at most "
         "once; by-name == first section whose name string equals the query (python scan of the printed headers and name table); "
         "typed views refused exactly when the type differs, else as many entries as whole entries in the raw data; plus equality "
-        "with the model. Non-trivial: a file with section headers that opens.")
+        "with the model; every second file also through ElfStream on one handle (typed views and by-name lookups in random order, "
+        "segment notes first) compared with ElfBytes; sh_link of symbol tables re-pointed at any section, the linked string table "
+        "made NOBITS or flagged compressed. Non-trivial: a file with section headers that opens.")
 ASSUMPTIONS = ["from_utf8 environment model (section names)"]
 _info = {}
+_pairs = {}
 KIND_T = {2: "symtab", 11: "dynsym", 6: "dynamic", 5: "hash", 0x6ffffff6: "gnuhash"}
 
 
@@ -38,6 +41,20 @@ def gen(rng, tier):
         data, meta = e.build(rng)
         if meta["nsh"] and rng.random() < 0.2:              # a name offset outside the name table, early in the table
             data = elfgen.patch(data, meta, "shdr", "sh_name", rng.choice([2**31, 4000]), rng.randrange(0, meta["nsh"]))
+        # sh_link of a symbol table pointing at any section; the linked string table made NOBITS / flagged compressed
+        o0 = fileq.py_open("any", data)
+        hs = fileq.py_shdrs(o0, data) if o0 else None
+        if hs and rng.random() < 0.35:
+            for k, h in enumerate(hs):
+                if h and h["sh_type"] in (2, 11, 6) and rng.random() < 0.7:
+                    r = rng.random()
+                    lk = h["sh_link"]
+                    if r < 0.4:
+                        data = elfgen.patch(data, meta, "shdr", "sh_link", rng.randrange(0, meta["nsh"] + 1), k)
+                    elif r < 0.7 and lk < len(hs) and hs[lk]:
+                        data = elfgen.patch(data, meta, "shdr", "sh_type", 8, lk)
+                    elif lk < len(hs) and hs[lk]:
+                        data = elfgen.patch(data, meta, "shdr", "sh_flags", hs[lk]["sh_flags"] | 0x800, lk)
         fam = filegen.fam_for(rng, meta["little"])
         names = [s["name"] for s in e.sections] + [b".shstrtab"]
         qn = list(dict.fromkeys(rng.sample(names, min(len(names), 4)) + [b".text", b".tex", b".text.h", b"absent", b"", b".symtab", b".gnu.hash"]))
@@ -58,11 +75,34 @@ def gen(rng, tier):
         c = "bytes %s %s | %s" % (fam, hx(data), " | ".join(qs))
         _info[c] = (data, meta, qn)
         cases.append(c)
+        if i % 2 == 0:          # the same paths through ElfStream, in a random order on one handle (segments before the sections inside them)
+            q2 = ["byname %s" % hx(x) for x in qn]
+            for k in range(meta["nsh"]):
+                q2 += ["secdata %d" % k, "strtab %d 0 1" % k, "rels %d" % k, "relas %d" % k, "notes %d" % k]
+            rng.shuffle(q2)
+            q2 = ["ehdr", "shdrs", "phdrs"] + ["segnotes %d" % j for j in range(meta["nph"])] + q2[:24] + ["symtab", "dynsym", "dynamic"]
+            sc = streamgen.stream_case(fam, data, "plain", [], q2)
+            bc = streamgen.bytesc_case(fam, data, q2)
+            _pairs[sc] = (bc, q2, data, fam)
+            cases += [sc, bc]
     return cases
 
 
 def project(line):
-    return vlib.collapse_errors(line)
+    return vlib.collapse_errors(streamgen.strip_alloc(line)[0])
+
+
+def post(cases, impl, model, a):
+    out = []
+    idx = {c: k for k, c in enumerate(cases)}
+    for sc, (bc, qs, data, fam) in _pairs.items():
+        if sc not in idx or bc not in idx:
+            continue
+        sres, _ = streamgen.split_stream(project(impl[idx[sc]]))
+        why = streamgen.compare_stream_slice(qs, sres, project(impl[idx[bc]]), data, fam)
+        if why:
+            out.append((sc, why))
+    return out
 
 
 _default = default_oracle(project)
@@ -160,12 +200,15 @@ def oracle(case, impl, model):
 
 
 def nontrivial(case, impl):
-    return not impl.startswith("E:") and "ok(" in impl
+    return not impl.startswith(("E:", "stream(E")) and "ok(" in impl
 
 
 def distribution(cases, impl, model):
     d = {"files": len(cases), "opened": 0, "common_ok": 0, "common_err": 0, "byname_found": 0, "byname_none": 0, "permuted_or_named": 0}
     for c, il in zip(cases, impl):
+        if not c.startswith("bytes "):
+            d["stream_or_slice_histories"] = d.get("stream_or_slice_histories", 0) + 1
+            continue
         if il.startswith("E:"):
             continue
         d["opened"] += 1
